@@ -337,7 +337,8 @@ def rule(program, rep, rule_id, modules, domains=None):
     """Report the FALSY findings of ``modules`` under ``rule_id``."""
     res, n_sites, n_open = check(program, modules, domains)
     for mname, n, inst, p, text in res:
-        rep.bad(rule_id, inst, "truth-test default %s" % p, text, n)
+        rep.bad(rule_id, inst, "truth-test default %s" % p, text, n,
+                positive=True)
     for mname in modules:
         m = program.modules.get(mname)
         if m is None:
@@ -347,7 +348,8 @@ def rule(program, rep, rule_id, modules, domains=None):
                     not getattr(fn, "_virtual", False):
                 for t, p, o, text in identity_flags(fn):
                     rep.bad(rule_id, "%s:%s" % (mname, q),
-                            "flag %s read two ways" % p, q + ": " + text, t)
+                            "flag %s read two ways" % p, q + ": " + text, t,
+                            positive=True)
     rep.ok(rule_id, ",".join(sorted(modules)) or "-",
            "%d truth-test default(s) on parameters examined: none replaces "
            "a falsy value that the parameter is known to take (%d left "
